@@ -236,6 +236,8 @@ CUR_ERR = None
 
 
 class Ctx:
+    child_stderr_encoding = None
+
     def __init__(self, spec, child_hook=None, warnings=None, child_env=None):
         self.spec = spec
         self.child_hook = child_hook
@@ -254,7 +256,8 @@ class Ctx:
         self.nchild += 1
         saved = (sys.stdout, sys.stderr, sys.stdin, dict(F._layer_name_cache),
                  worldrt.VPID)
-        cout, cerr = Capture(), Capture()
+        cout = Capture()
+        cerr = Capture(self.child_stderr_encoding, 'replace') if self.child_stderr_encoding else Capture()
         built = worldrt.build(self.spec)
         prev = worldrt.install(built)
         sys.stdout, sys.stderr = cout, cerr
@@ -314,12 +317,14 @@ def global_state():
 
 
 def run_world(spec, argv, child_hook=None, warnings=None, probe=True,
-              want_state=False, stdin=None, runner_kw=None, defaults=None):
+              want_state=False, stdin=None, runner_kw=None, defaults=None,
+              child_stderr_encoding=None):
     """Run the real Runner in-process on ``spec`` with argument vector
     ``['vt-script'] + argv``.  Returns a Result."""
     R, F = _mods()
     res = Result()
     ctx = Ctx(spec, child_hook, warnings)
+    ctx.child_stderr_encoding = child_stderr_encoding
     _CTX.append(ctx)
     built = worldrt.build(spec)
     prev_mod = worldrt.install(built)
